@@ -391,6 +391,43 @@ theorem allInst_get {attrs : List Attr} {vs : List Val} (h : allInst attrs vs = 
       | zero => simp at ha hv; subst ha; subst hv; exact h.1
       | succ j => simp at ha hv; exact ih h.2 ha hv
 
+theorem allElems_mono {p q : Val → Bool} (h : ∀ v, p v = true → q v = true) :
+    ∀ v, allElems p v = true → allElems q v = true := by
+  intro v
+  induction v with
+  | acons x t _ iht =>
+    intro hv
+    simp only [allElems, Bool.and_eq_true] at hv ⊢
+    exact ⟨h x hv.1, iht hv.2⟩
+  | anil => intro _; rfl
+  | _ => intro hv; simp [allElems] at hv
+
+/-- the type the named constructor's init Struct gives an attribute (`typeAndInit`) accepts whatever the attribute's own
+    type accepts (and, for `NotUndef[T]`, undef besides) -/
+theorem inst_tyInit (t : Ty) : ∀ v, inst t v = true → inst (tyInit t) v = true := by
+  induction t with
+  | opt t ih =>
+    intro v h
+    simp only [tyInit, inst, Bool.or_eq_true] at h ⊢
+    rcases h with h | h
+    · exact Or.inl h
+    · exact Or.inr (ih v h)
+  | notUndef t ih =>
+    intro v h
+    simp only [tyInit, inst, Bool.and_eq_true, Bool.or_eq_true] at h ⊢
+    exact Or.inr (ih v h.2)
+  | variant a b iha ihb =>
+    intro v h
+    simp only [tyInit, inst, Bool.or_eq_true] at h ⊢
+    rcases h with h | h
+    · exact Or.inl (iha v h)
+    · exact Or.inr (ihb v h)
+  | array t ih =>
+    intro v h
+    simp only [tyInit, inst] at h ⊢
+    exact allElems_mono ih v h
+  | _ => intro v h; exact h
+
 theorem allInst_length {attrs : List Attr} {vs : List Val} (h : allInst attrs vs = true) : vs.length ≤ attrs.length := by
   induction attrs generalizing vs with
   | nil => cases vs <;> simp [allInst] at h ⊢
